@@ -65,6 +65,11 @@ def traces():
                       P("/ppt/media/my%20picture.png", "image/png"), P("/ppt/media/%C3%A9t%C3%A9.png", "image/png"),
                       P("/ppt/my%20dir/100%25.dat", rels=[R("rId1", "../media/my%20picture.png")])],
                      [R("rId1", "ppt/slides/slide1.bin")], cyc={"form": form, "form2": form}))
+    # TargetMode="Internal" spelled out on some relationships only: the only route to a part may be such a relationship
+    out.append(T("explicit-internal-target-mode",
+                 [P("/a/p1.bin", rels=[dict(R("rId1", "../b/p2.bin"), explicit=True), R("rId2", "../b/p3.bin")]),
+                  P("/b/p2.bin", rels=[dict(R("rId1", "p4.bin"), explicit=True)]), P("/b/p3.bin"), P("/b/p4.bin")],
+                 [dict(R("rId1", "a/p1.bin"), explicit=True)]))
     # XML part types python-pptx re-serialises
     out.append(T("xmlparts",
                  [P("/ppt/slides/slide1.xml", "application/vnd.openxmlformats-officedocument.presentationml.slide+xml",
